@@ -287,7 +287,12 @@ func visitInstr(fr *frame, instr ssa.Instruction) continuation {
 
 	case *ssa.Go:
 		fn, args := prepareCall(fr, &instr.Call)
-		fr.i.sch.spawn(instr.Pos(), fn, args)
+		if fr.i.sch.inlineGo {
+			// harness request: run inert background goroutines (stubbed servers, timers) inline
+			call(fr.i, fr, instr.Pos(), fn, args)
+		} else {
+			fr.i.sch.spawn(instr.Pos(), fn, args)
+		}
 
 	case *ssa.MakeChan:
 		fr.env[instr] = &mchan{cap: int(concInt(fr, fr.get(instr.Size), "chan size")), elem: instr.Type().Underlying().(*types.Chan).Elem()}
@@ -498,7 +503,11 @@ func callSSA(i *interpreter, caller *frame, callpos token.Pos, fn *ssa.Function,
 			return r
 		}
 		if fn.Blocks == nil {
-			panic(inconclusive{"no code for function: " + fn.String()})
+			who := ""
+			for f, n := caller, 0; f != nil && n < 4; f, n = f.caller, n+1 {
+				who += " <- " + f.fn.String()
+			}
+			panic(inconclusive{"no code for function: " + fn.String() + who})
 		}
 	}
 	if fn.Synthetic == "package initializer" {
